@@ -67,7 +67,8 @@ func c07NoDeviceCert(x *runCtx, k lab.Kind, enc protocol.KeyEncoding) {
 }
 
 // c07SqliteExpiry: the expiry of a registration as the SQLite blob store enforces it (real clock).
-func c07SqliteExpiry(x *runCtx, k lab.Kind, enc protocol.KeyEncoding) {
+// prop names the property the run reports under (C07: released only while registered; C06: stored with an expiry equal to the accepted TTL).
+func c07SqliteExpiry(x *runCtx, prop string, k lab.Kind, enc protocol.KeyEncoding) {
 	ctx := context.Background()
 	cw := newC19World("sqlite")
 	defer cw.close()
@@ -107,15 +108,15 @@ func c07SqliteExpiry(x *runCtx, k lab.Kind, enc protocol.KeyEncoding) {
 	}
 	x.r.Case(input+" before expiry", true, "sqlite-expiry")
 	if res := to1(); res != "ok" && time.Since(t0) < 1500*time.Millisecond {
-		x.r.Violate(rep.Violation{Kind: "oracle", Check: "C07.sqlite-expiry", Signature: "C07.sqlite:live-registration-refused", Input: input, Impl: res, PropertyFails: false})
+		x.r.Violate(rep.Violation{Kind: "oracle", Check: prop + ".sqlite-expiry", Signature: prop + ".sqlite:live-registration-refused", Input: input, Impl: res, PropertyFails: false})
 	}
 	time.Sleep(time.Until(t0.Add(3200 * time.Millisecond)))
 	x.r.Case(input+" after expiry", true, "sqlite-expiry")
 	if res := to1(); res == "ok" {
-		x.r.Violate(rep.Violation{Kind: "oracle", Check: "C07.sqlite-expiry", Signature: "C07.sqlite:redirect-released-after-expiry", Input: input + "; TO1 3.2 s after registration", Impl: "redirect released", PropertyFails: true})
+		x.r.Violate(rep.Violation{Kind: "oracle", Check: prop + ".sqlite-expiry", Signature: prop + ".sqlite:redirect-released-after-expiry", Input: input + "; TO1 3.2 s after registration", Impl: "redirect released", PropertyFails: true})
 	}
 	if _, _, err := cw.back.RVBlob(ctx, d.Cred.GUID); err == nil {
-		x.r.Violate(rep.Violation{Kind: "oracle", Check: "C07.sqlite-expiry", Signature: "C07.sqlite:expired-blob-returned-by-store", Input: input, PropertyFails: true})
+		x.r.Violate(rep.Violation{Kind: "oracle", Check: prop + ".sqlite-expiry", Signature: prop + ".sqlite:expired-blob-returned-by-store", Input: input, PropertyFails: true})
 	}
 }
 
